@@ -110,6 +110,20 @@ def run(ctx):
     canary_reorder(ctx, ctx.spec_path("cli_k%d.ndjson" % ks[0]))
 
     # (b) race detector
+    # instances of one checker constructed on separate contexts (what concurrent analysis passes have) must not reach a common
+    # object that changes while one of them works: every checker twice, object graphs walked by reflection, the common objects
+    # printed before and after one instance analysed the checker's example files
+    shp = ctx.path("sharing.json")
+    ctx.run_vh(["sharing", "-out", shp], timeout=1800)
+    sh = json.load(open(shp))
+    if sh["checkers"] < 100:
+        raise vlib.Infra("sharing probe saw only %d checkers" % sh["checkers"])
+    for o in sh["shared"] or []:
+        if o["written"]:
+            ctx.fail("SharedMutableState %s" % o["checker"], "two instances of %s share a %s (%s) that changes while one of them analyses a file"
+                     % (o["checker"], o["type"], o["path"]), {"object": o})
+    design["instances_probed"] = sh["checkers"]
+    design["shared_readonly_objects"] = len([o for o in sh["shared"] or [] if not o["written"]])
     race = race_runs(ctx, w, thorough)
     # (c) analyzer passes
     an = ac.concurrent_runs(ctx, w, thorough)
